@@ -77,6 +77,36 @@ type c19IssWrap struct {
 	obs *c19E2EObs
 }
 
+// c19Probe is an issuer double placed AFTER the real ACME issuer in cfg.Issuers: it never issues;
+// it records what the context of the issuer loop carries under AttemptsCtxKey when the ACME
+// issuer has failed (the attempt number, or -1 when the value is not a *int), and how many
+// orders the CAs had seen by then (= the end of that attempt).
+type c19Probe struct {
+	env   *c1719Env
+	tag   string
+	mu    sync.Mutex
+	calls []c19ProbeCall
+}
+
+type c19ProbeCall struct {
+	No     int
+	Orders int
+}
+
+func (p *c19Probe) IssuerKey() string { return "c19probe" }
+
+func (p *c19Probe) Issue(ctx context.Context, csr *x509.CertificateRequest) (*certmagic.IssuedCertificate, error) {
+	no := -1
+	if a, ok := ctx.Value(certmagic.AttemptsCtxKey).(*int); ok && a != nil {
+		no = *a
+	}
+	n := len(p.env.orders(p.tag))
+	p.mu.Lock()
+	p.calls = append(p.calls, c19ProbeCall{No: no, Orders: n})
+	p.mu.Unlock()
+	return nil, errors.New("c19probe: does not issue")
+}
+
 func c19ResClass(err error) int {
 	var nr certmagic.ErrNoRetry
 	switch {
@@ -154,6 +184,51 @@ func c19E2ERun(env *c1719Env, p c19E2EPlan) c19E2EObs {
 			obs.Stored = env.signerOf(ic.Certificate)
 		}
 		obs.Served = obs.Stored
+	case "renew":
+		// a certificate from the production CA is in storage (obtained first, through the same
+		// issuer: its metadata names this CA, ARI is left enabled); then a forced background renewal
+		// with the REAL issuer in cfg.Issuers (renewCert marks the context for *ACMEIssuer only),
+		// followed by the probe double
+		cfg.Issuers = []certmagic.Issuer{iss}
+		env.register(tag, append([]string{"ok"}, p.Prod...), p.Test, time.Now())
+		if err := cfg.ObtainCertSync(ctx, name); err != nil {
+			obs.Note = "initial obtain: " + err.Error()
+			obs.Final = 1
+			return obs
+		}
+		first := len(env.orders(tag))
+		probe := &c19Probe{env: env, tag: tag}
+		cfg.Issuers = []certmagic.Issuer{iss, probe}
+		err := cfg.RenewCertAsync(ctx, name, true)
+		obs.Final = c19ResClass(err)
+		if err != nil && ctx.Err() != nil {
+			obs.Note = "harness deadline: " + err.Error()
+		}
+		if pemBytes, lerr := b.Handle("probe").Load(context.Background(), certmagic.StorageKeys.SiteCert(iss.IssuerKey(), name)); lerr == nil {
+			obs.Stored = env.signerOf(pemBytes)
+		}
+		obs.Served = obs.Stored
+		// attempts: a probe call ends a failed attempt; the orders after the last one are the
+		// successful attempt (its number is the position: nothing reports it)
+		all := env.orders(tag)
+		mk := func(from, to int) []c19E2EOrder {
+			var os []c19E2EOrder
+			for _, o := range all[from:to] {
+				os = append(os, c19E2EOrder{Dir: env.cas[o.CA].URL, Outcome: o.Outcome})
+			}
+			return os
+		}
+		prev := first
+		probe.mu.Lock()
+		for _, c := range probe.calls {
+			obs.Atts = append(obs.Atts, c19E2EAtt{No: c.No, Orders: mk(prev, min(c.Orders, len(all))), Res: 1, From: -1})
+			prev = min(c.Orders, len(all))
+		}
+		nProbe := len(probe.calls)
+		probe.mu.Unlock()
+		if err == nil {
+			obs.Atts = append(obs.Atts, c19E2EAtt{No: nProbe, Orders: mk(prev, len(all)), Res: 0, From: obs.Stored})
+		}
 	case "async":
 		err := cfg.ObtainCertAsync(ctx, name)
 		obs.Final = c19ResClass(err)
@@ -188,7 +263,7 @@ func c19E2EWire(p c19E2EPlan, o c19E2EObs) string {
 	code := map[string]int{"ok": 0, "429": 1, "fail": 2}
 	e := &emit.Enc{}
 	e.Int(4)
-	if p.Mode == "async" {
+	if p.Mode == "async" || p.Mode == "renew" {
 		e.Int(1)
 	} else {
 		e.Int(0)
@@ -239,6 +314,29 @@ func c19E2EPlans(tier string, r *rand.Rand) []c19E2EPlan {
 		{Mode: "async", TestCA: "none", Prod: []string{"fail", "fail", "ok"}},
 	}
 	ps = append(ps, async...)
+	// ---- background renewal of a stored certificate of the same CA (ARI enabled): the attempt
+	// counter must reach the issuers on renewals too, retries go to the test CA first
+	renew := []c19E2EPlan{
+		{Mode: "renew", TestCA: "distinct", Prod: []string{"fail", "ok"}, Test: []string{"ok"}},
+		{Mode: "renew", TestCA: "distinct", Prod: []string{"429", "429", "ok"}, Test: []string{"ok", "fail", "ok"}},
+		{Mode: "renew", TestCA: "distinct", Prod: []string{"fail", "ok"}, Test: []string{"fail", "429", "ok"}},
+		{Mode: "renew", TestCA: "distinct", Prod: []string{"ok"}},
+		{Mode: "renew", TestCA: "same", Prod: []string{"fail", "429", "ok"}},
+		{Mode: "renew", TestCA: "none", Prod: []string{"fail", "ok"}},
+	}
+	ps = append(ps, renew...)
+	if tier == "thorough" {
+		for i := 0; i < 12; i++ {
+			p := c19E2EPlan{Mode: "renew", TestCA: []string{"distinct", "distinct", "same", "none"}[r.Intn(4)], Prod: []string{[]string{"fail", "429"}[r.Intn(2)]}}
+			for j := r.Intn(3); j > 0; j-- {
+				p.Prod = append(p.Prod, []string{"ok", "429"}[r.Intn(2)]) // (a refusal after a test success would be ErrNoRetry, which the issuer loop replaces by the probe's error)
+			}
+			for j := r.Intn(4); j > 0; j-- {
+				p.Test = append(p.Test, outs[r.Intn(3)])
+			}
+			ps = append(ps, p)
+		}
+	}
 	n := 10
 	if tier == "thorough" {
 		n = 80
